@@ -565,11 +565,15 @@ func checkHeapInterface(p *Prog, r *Report) {
 	okLess := false
 	eachInstr(less, func(in ssa.Instruction) {
 		c, ok := in.(*ssa.Call)
-		if !ok || calleeName(&c.Call) != "(time.Time).Before" {
+		if !ok {
 			return
 		}
-		a, ok1 := c.Call.Args[0].(*ssa.Call)
-		b, ok2 := c.Call.Args[1].(*ssa.Call)
+		ev, lv, okT := timeLess(c)
+		if !okT {
+			return
+		}
+		a, ok1 := ev.(*ssa.Call)
+		b, ok2 := lv.(*ssa.Call)
 		if ok1 && ok2 && a.Call.StaticCallee() == minE && b.Call.StaticCallee() == minE &&
 			a.Call.Args[1] == ssa.Value(less.Params[1]) && b.Call.Args[1] == ssa.Value(less.Params[2]) {
 			// and the result is returned
@@ -586,11 +590,15 @@ func checkHeapInterface(p *Prog, r *Report) {
 	okMin := false
 	eachInstr(minE, func(in ssa.Instruction) {
 		c, ok := in.(*ssa.Call)
-		if !ok || calleeName(&c.Call) != "(time.Time).Before" {
+		if !ok {
 			return
 		}
-		_, f1, _, ok1 := loadedField(c.Call.Args[0])
-		_, f2, _, ok2 := loadedField(c.Call.Args[1])
+		ev, lv, okT := timeLess(c)
+		if !okT {
+			return
+		}
+		_, f1, _, ok1 := loadedField(ev)
+		_, f2, _, ok2 := loadedField(lv)
 		if !ok1 || !ok2 {
 			return
 		}
@@ -658,36 +666,44 @@ func checkHeapInterface(p *Prog, r *Report) {
 	}
 	nNonEmpty := 0
 	bad := ""
-	eachInstr(ge, func(in ssa.Instruction) {
-		rt, ok := in.(*ssa.Return)
-		if !ok {
+	wge := &absWalker{MaxPaths: 4096}
+	wge.OnEnd = func(st *absState, last ssa.Instruction) {
+		rt, ok := last.(*ssa.Return)
+		if !ok || len(rt.Results) != 1 {
 			return
 		}
-		for _, lf := range valueLeaves(retResult(rt, 0), in.Block(), 4) {
-			nonEmpty := false
-			for _, f := range lf.Facts {
-				if isNonEmptyFact(f) {
+		nonEmpty := false
+		for _, cd := range st.Conds {
+			for _, cf := range cmpForms(cd.If.Cond) {
+				if cf.Succ == cd.Succ && isNonEmptyFact(relFact{cf.X, cf.Op, cf.Y}) {
 					nonEmpty = true
 				}
 			}
-			if !nonEmpty {
-				continue
-			}
-			nNonEmpty++
-			okV := false
-			if u, ok := lf.V.(*ssa.UnOp); ok {
-				if g, ok := u.X.(*ssa.Global); ok && g.Name() == "MinExpiryTime" {
-					okV = true
-				}
-			}
-			if b2, ok := lf.V.(*ssa.BinOp); ok && b2.Op == token.ADD {
+		}
+		if !nonEmpty {
+			return
+		}
+		nNonEmpty++
+		v := st.resolve(rt.Results[0])
+		okV := false
+		if u, ok := v.(*ssa.UnOp); ok {
+			if g, ok := u.X.(*ssa.Global); ok && g.Name() == "MinExpiryTime" {
 				okV = true
 			}
-			if !okV {
-				bad = p.instrPos(in)
-			}
 		}
-	})
+		if b2, ok := v.(*ssa.BinOp); ok && b2.Op == token.ADD {
+			okV = true
+		}
+		if !okV {
+			bad = p.instrPos(last)
+		}
+	}
+	if len(ge.Blocks) > 0 {
+		wge.walk(newAbsState(), ge.Blocks[0], 0)
+	}
+	if wge.Overflow || wge.Looped {
+		bad = "the function is not a loop-free decision any more"
+	}
 	if nNonEmpty == 0 {
 		r.Undecided("R-HEAP.expiry-clamp", fnKey(ge)+": non-empty queue branch", p.pos(ge.Pos()), "no 'queue.Len() > 0' test found")
 	} else {
@@ -733,15 +749,19 @@ func checkDeadlineTests(p *Prog, r *Report, delFn *ssa.Function) {
 		var afters []*ssa.Call
 		eachInstr(f, func(in ssa.Instruction) {
 			c, ok := in.(*ssa.Call)
-			if !ok || calleeName(&c.Call) != "(time.Time).After" {
+			if !ok {
 				return
 			}
-			tn, fn, base, ok := loadedField(c.Call.Args[0])
+			nowV, fieldV, okT := timeLess(c) // "now is before the deadline"
+			if !okT {
+				return
+			}
+			tn, fn, base, ok := loadedField(fieldV)
 			if !ok || tn != "pkg/intermediate.ItemToExpire" {
 				return
 			}
 			if bc, ok := base.(*ssa.Call); ok && calleeName(&bc.Call) == "(pkg/intermediate.TimeToExpirePriorityQueue).Peek" {
-				if nc, ok := c.Call.Args[1].(*ssa.Call); ok && calleeName(&nc.Call) == "time.Now" {
+				if nc, ok := nowV.(*ssa.Call); ok && calleeName(&nc.Call) == "time.Now" {
 					_ = fn
 					afters = append(afters, c)
 				}
@@ -749,40 +769,50 @@ func checkDeadlineTests(p *Prog, r *Report, delFn *ssa.Function) {
 		})
 		fields := map[string]bool{}
 		for _, a := range afters {
-			_, fn, _, _ := loadedField(a.Call.Args[0])
+			_, fv, _ := timeLess(a)
+			_, fn, _, _ := loadedField(fv)
 			fields[fn] = true
 		}
 		construct := fnKey(f) + ": scan stop test"
 		if !(fields["activeExpireTime"] && fields["inactiveExpireTime"]) {
 			r.Violation("R-GATE.stop-test", construct, p.instrPos(pop), "the scan does not test both deadlines of the queue root against time.Now() before popping")
 		} else {
-			// Pop unreachable when every After() took its true edge
-			isAfterIf := func(b *ssa.BasicBlock) bool {
-				i := ifOf(b)
-				if i == nil {
-					return false
-				}
-				for _, a := range afters {
-					if i.Cond == ssa.Value(a) {
-						return true
-					}
-				}
-				return false
-			}
-			q := &pathQuery{noExit: true, terminal: func(x ssa.Instruction) bool { return x == ssa.Instruction(pop) },
-				prune: func(from *ssa.BasicBlock, si int) bool {
-					if isAfterIf(from) && si == 1 {
-						return true
-					}
-					return from.Succs[si].Dominates(from) // no second iteration
-				}}
+			// the Pop is not reached on a path on which both "now is before the deadline" tests of the root held - decided
+			// on the enumerated paths of one iteration (the test may be computed as a boolean first, negated, or sit in a
+			// closure / helper that was spliced back)
 			start := afters[0]
 			for _, a := range afters {
 				if dominates(a, start) {
 					start = a
 				}
 			}
-			_, bad := q.find(start)
+			bad := false
+			lh := loopHeadOf(pop.Block())
+			wk := &absWalker{MaxPaths: 8192, LoopHead: lh}
+			wk.OnInstr = func(st *absState, in ssa.Instruction) {
+				if in != ssa.Instruction(pop) {
+					return
+				}
+				held := map[string]bool{}
+				for _, a := range afters {
+					if v, known := st.bools[st.key(a)]; known && v {
+						_, fv, _ := timeLess(a)
+						_, fn, _, _ := loadedField(fv)
+						held[fn] = true
+					}
+				}
+				if held["activeExpireTime"] && held["inactiveExpireTime"] {
+					bad = true
+				}
+			}
+			if lh != nil {
+				wk.walk(newAbsState(), lh, 0)
+			} else if len(f.Blocks) > 0 {
+				wk.walk(newAbsState(), f.Blocks[0], 0)
+			}
+			if wk.Overflow {
+				bad = true
+			}
 			r.Check(!bad, "R-GATE.stop-test", construct, p.instrPos(start), "the Pop is unreachable while both deadlines of the root are After(now): nothing is handed to the callback early",
 				"an item whose active and inactive deadlines are both still in the future can be popped: the callback fires before the deadline", true)
 		}
@@ -801,15 +831,23 @@ func checkDeadlineTests(p *Prog, r *Report, delFn *ssa.Function) {
 				if tn, fn, _, ok := loadedField(fct.X); ok && tn == "pkg/intermediate.AggregationFlowRecord" && fn == "waitForReadyToSendRetries" && (fct.Op == token.GTR || fct.Op == token.GEQ) {
 					how = "retries exhausted (waitForReadyToSendRetries > MaxRetries)"
 				}
+				// ... or the value that was just stored into the counter (kept in a local)
+				if (fct.Op == token.GTR || fct.Op == token.GEQ) && storedIntoField(fct.X, "pkg/intermediate.AggregationFlowRecord", "waitForReadyToSendRetries") {
+					how = "retries exhausted (waitForReadyToSendRetries > MaxRetries)"
+				}
 			}
 			for _, gd := range guardsOf(in.Block()) {
-				if ac, ok := gd.If.Cond.(*ssa.Call); ok {
-					n := calleeName(&ac.Call)
-					tn, fn, base, ok := loadedField(ac.Call.Args[0])
-					if ok && tn == "pkg/intermediate.ItemToExpire" && fn == "inactiveExpireTime" && sameItem(base, item) {
-						if (n == "(time.Time).After" && gd.Succ == 1) || (n == "(time.Time).Before" && gd.Succ == 0) {
-							how = "inactive deadline of the popped item has passed"
-						}
+				if ac, ok := gd.If.Cond.(*ssa.Call); ok && len(ac.Call.Args) > 0 {
+					ev, lv, okT := timeLess(ac)
+					if !okT {
+						continue
+					}
+					// "now is before the inactive deadline" is false, or "the inactive deadline is before now" is true
+					if tn, fn, base, ok := loadedField(lv); ok && tn == "pkg/intermediate.ItemToExpire" && fn == "inactiveExpireTime" && sameItem(base, item) && gd.Succ == 1 {
+						how = "inactive deadline of the popped item has passed"
+					}
+					if tn, fn, base, ok := loadedField(ev); ok && tn == "pkg/intermediate.ItemToExpire" && fn == "inactiveExpireTime" && sameItem(base, item) && gd.Succ == 0 {
+						how = "inactive deadline of the popped item has passed"
 					}
 				}
 			}
@@ -978,12 +1016,15 @@ func checkRepushFuture(p *Prog, r *Report) {
 				// or known to be in the future on this path
 				for _, gd := range guardsOf(in.Block()) {
 					c, isC := gd.If.Cond.(*ssa.Call)
-					if !isC {
+					if !isC || len(c.Call.Args) == 0 {
 						continue
 					}
-					name := calleeName(&c.Call)
-					tn, fn, base, isF := loadedField(c.Call.Args[0])
-					if name == "(time.Time).After" && gd.Succ == 0 && isF && tn == "pkg/intermediate.ItemToExpire" && fn == fld && sameItem(base, item) {
+					_, lv, okT := timeLess(c)
+					if !okT {
+						continue
+					}
+					tn, fn, base, isF := loadedField(lv)
+					if gd.Succ == 0 && isF && tn == "pkg/intermediate.ItemToExpire" && fn == fld && sameItem(base, item) {
 						ok = true
 					}
 				}
